@@ -505,7 +505,7 @@ def r_loopvar(ctx, bases=("Constraint", "Indicator", "Objective"), solver=False)
         ctx.violation("R-LOOPVAR", where, f"loop variable {var} used after its loop",
                       f"`{var}` is only bound as a loop variable and is read after the loop to build an emitted term: the term "
                       f"speaks about the last element only", location)
-    ctx.floor("R-LOOPVAR", "paths scanned", n, 200)
+    ctx.floor("R-LOOPVAR", "paths scanned", n, 200 if bases else 1)
     if not found:
         ctx.ok("R-LOOPVAR", f"no emitted term uses an escaped loop variable ({n} paths)")
 
